@@ -9,16 +9,17 @@ import (
 )
 
 // Value is a symbolic Go value. Concrete kinds:
-//   *Term      bool / integer scalar
-//   *StrVal    string
-//   *StructVal struct (by value)
-//   *ArrayVal  array (by value) — also the backing store of slices
-//   *PtrVal    pointer, map, chan (reference to a heap object; guarded set of addresses)
-//   *SliceVal  slice
-//   *IfaceVal  interface (guarded set of dynamic type/value)
-//   *FuncVal   function / closure (guarded set)
-//   *TupleVal  multi-value result
-//   *MapObj, *ChanObj, *OpaqueVal  heap-object payloads
+//
+//	*Term      bool / integer scalar
+//	*StrVal    string
+//	*StructVal struct (by value)
+//	*ArrayVal  array (by value) — also the backing store of slices
+//	*PtrVal    pointer, map, chan (reference to a heap object; guarded set of addresses)
+//	*SliceVal  slice
+//	*IfaceVal  interface (guarded set of dynamic type/value)
+//	*FuncVal   function / closure (guarded set)
+//	*TupleVal  multi-value result
+//	*MapObj, *ChanObj, *OpaqueVal  heap-object payloads
 type Value interface{}
 
 // StrVal is a string: B[i] are 8-bit terms, Len a 64-bit term with Len <= len(B).
